@@ -19,7 +19,7 @@ use std::time::Duration;
 /// one vertex of the cube: index per switch
 #[derive(Clone, Copy, Debug, PartialEq, Eq, Hash, Serialize, Deserialize)]
 pub struct Vertex {
-    pub alloc: u8,   // 0 std, 1 ::alloc, 2 ::a::b, 3 crate::al (a path that is not global)
+    pub alloc: u8,   // 0 std, 1 ::alloc, 2 ::a::b, 3 crate::al (a path that is not global), 4 al::loc (a relative path)
     pub docs: u8,    // 0 off, 1 on
     pub codec: u8,   // 0 off, 1 on
     pub root: u8,    // 0 types, 1 r, 2 p (the name of the crate the registry's types live in)
@@ -28,7 +28,7 @@ pub struct Vertex {
     pub subst: u8, // 0 none, 1 `p::a::G<T> -> ::ext::Static<T, ::ext::Inner<::ext::Deep<T>>>` (parameter at top level and nested)
 }
 const DIMS: [(&str, u8); 7] = [
-    ("alloc", 4),
+    ("alloc", 5),
     ("docs", 2),
     ("codec", 2),
     ("root", 3),
@@ -107,7 +107,7 @@ impl Vertex {
         v
     }
     fn alloc_prefix(&self) -> &'static str {
-        ["::std", "::alloc", "::a::b", "crate::al"][self.alloc as usize]
+        ["::std", "::alloc", "::a::b", "crate::al", "al::loc"][self.alloc as usize]
     }
     fn root_name(&self) -> &'static str {
         ["types", "r", "p"][self.root as usize]
@@ -118,7 +118,8 @@ impl Vertex {
             0 => None,
             1 => Some("::alloc".into()),
             2 => Some("::a::b".into()),
-            _ => Some("crate::al".into()),
+            3 => Some("crate::al".into()),
+            _ => Some("al::loc".into()),
         };
         s.docs = self.docs == 1;
         s.codec_attrs = self.codec == 1;
